@@ -132,6 +132,98 @@ def controlled_schedule(typed, opname, out, wait=WAIT):
     return events, problems
 
 
+def reader_first_schedule(typed, opname, wait=WAIT):
+    """B starts a snapshot operation whose callback pauses the walk half-way; A then enters `with tree:` and
+    adds TWO sentinels (one before, one after the point the walk has reached).  A consistent snapshot holds both
+    or none of them; and A must not get the lock before B's snapshot is complete."""
+    tree = (TypedTree if typed else Tree)("c18r")
+    kw = {"kind": "k1"} if typed else {}
+    objs = [("n", i) for i in range(6)]
+    for o in objs:
+        tree.add(o, **kw).add(("c",) + o, **kw)
+    events = []
+    elock = threading.Lock()
+
+    def ev(x):
+        with elock:
+            events.append(x)
+
+    mid = threading.Event()
+    a_done = threading.Event()
+    calls = {"n": 0}
+
+    def pause(*args):
+        calls["n"] += 1
+        if calls["n"] == 5:
+            ev("B.mid-walk")
+            mid.set()
+            a_done.wait(timeout=wait)      # give A the chance to run its critical section now
+        return None
+
+    def pred(node):
+        pause()
+        return True
+
+    res = {}
+
+    def op():
+        if opname == "save":
+            fp = io.StringIO()
+            tree.save(fp, mapper=lambda n, d: (pause(), dict(d, v=str(n.data)))[1])
+            return fp.getvalue()
+        if opname == "copy":
+            return [n.name for n in tree.copy(predicate=pred)]
+        if opname == "filtered":
+            return [n.name for n in tree.filtered(pred)]
+        if opname == "to_dict_list":
+            return json.dumps(tree.to_dict_list(mapper=lambda n, d: (pause(), d)[1]))
+        if opname == "to_dotfile":
+            fp = io.StringIO()
+            tree.to_dotfile(fp, node_mapper=lambda n, d: pause())
+            return fp.getvalue()
+        raise AssertionError(opname)
+
+    def thread_b():
+        ev(f"B.start({opname})")
+        try:
+            res["snapshot"] = op()
+            res["b_err"] = None
+        except Exception as e:  # noqa
+            res["snapshot"] = None
+            res["b_err"] = repr(e)
+        ev(f"B.done({opname})")
+
+    def thread_a():
+        mid.wait(timeout=5)
+        with tree:
+            ev("A.acq")
+            tree.add(("S", "first"), before=True, **({"kind": "sentinel-first"} if typed else {}))
+            tree.add(("S", "last"), **({"kind": "sentinel-last"} if typed else {}))
+            ev("A.write(2 sentinels)")
+            ev("A.rel")
+        a_done.set()
+
+    tb = threading.Thread(target=thread_b, daemon=True)
+    ta = threading.Thread(target=thread_a, daemon=True)
+    tb.start()
+    ta.start()
+    tb.join(timeout=5)
+    ta.join(timeout=5)
+    problems = []
+    if ta.is_alive() or tb.is_alive():
+        problems.append("threads did not terminate (deadlock)")
+    if res.get("b_err"):
+        problems.append(f"snapshot operation raised {res['b_err']}")
+    text = json.dumps(res.get("snapshot"), default=str)
+    has_first = "first" in text
+    has_last = "last" in text
+    if has_first != has_last:
+        problems.append(f"torn snapshot: {opname} saw {'only the last' if has_last else 'only the first'} of two nodes that another thread added in ONE critical section")
+    if "A.acq" in events and f"B.done({opname})" in events and events.index("A.acq") < events.index(f"B.done({opname})") and "B.mid-walk" in events:
+        problems.append(f"a writer entered `with tree:` while {opname} was walking the tree (lock not held during the walk)")
+    return events, problems
+
+
 def reentrant(typed, out):
     """the owning thread nests `with tree:` and calls every snapshot operation inside it"""
     tree = make_tree(typed)
@@ -241,6 +333,13 @@ def run(ctx):
                     out.disagree(case, f"the observed event order is not an execution of the lock model: {m}")
             if len(out.samples) < 3:
                 out.sample(case)
+        for opname in ["save", "copy", "filtered", "to_dict_list", "to_dotfile"]:
+            events, problems = reader_first_schedule(typed, opname)
+            case = dict(kind="reader-first", typed=typed, op=opname, events=events)
+            out.count((typed, opname, "reader-first"), True)
+            out.dist["reader-first:" + opname] += 1
+            for p in problems:
+                out.fail(case, f"[{'TypedTree' if typed else 'Tree'}.{opname}, reader first] {p}; event order {events}")
         done, problems = reentrant(typed, out)
         out.count((typed, "reentrant"), True)
         for p in problems:
@@ -260,6 +359,9 @@ def replay(ctx, rp):
     out = core.Outcome()
     if case.get("kind") == "schedule":
         events, problems = controlled_schedule(case["typed"], case["op"], out)
+        return dict(events=events, problems=problems, property_holds=not problems)
+    if case.get("kind") == "reader-first":
+        events, problems = reader_first_schedule(case["typed"], case["op"])
         return dict(events=events, problems=problems, property_holds=not problems)
     if case.get("kind") == "reentrant":
         done, problems = reentrant(case["typed"], out)
